@@ -1,9 +1,35 @@
 (* C04 — the assembler accepts exactly the programs whose operands fit. *)
 From Coq Require Import ZArith List.
 Import ListNotations.
-From Lace Require AsmAccept AsmLayout AsmOrig AsmProgram.
+From Lace Require AsmAccept AsmLayout AsmOrig AsmProgram AsmLex AsmLit.
 From Lace Require Import Word Machine Isa Asm AsmProofs.
 Open Scope N_scope.
+
+(** What a literal DENOTES (AsmLit.v).  A numeral is an optional sign followed by at least one digit of its radix (hexadecimal
+    digits in either letter case) and denotes an integer in the usual way; a literal denotes the 16-bit pattern of that integer
+    when it lies in [-32768, 65535] and nothing otherwise ([AsmLit.lit_value]): `#-1`, `xFFFF`, `x-1`, `0XffFF`, `#65535` are one
+    operand.  The lexer's reading of the digits - Rust's `i16::from_str_radix`, then `u16::from_str_radix` - computes exactly
+    that, for every string; so a word is the decimal / hexadecimal literal of value v iff its digits denote v. *)
+Theorem C04_literal_value : forall radix s, 1 <= radix -> AsmLit.parse_lit radix s = AsmLit.lit_value radix s.
+Proof. exact AsmLit.parse_lit_value. Qed.
+Print Assumptions C04_literal_value.
+
+Theorem C04_dec_word : forall feat ds v, forallb AsmLex.nte ds = true ->
+  (AsmLex.lex_word feat (35 :: ds) = Some (KLit (LDec v)) <-> AsmLit.lit_value 10 ds = Some v).
+Proof. exact AsmLit.dec_word. Qed.
+Print Assumptions C04_dec_word.
+
+Theorem C04_hex_word : forall feat pre ds v, forallb AsmLex.nte ds = true ->
+  In pre [[120]; [88]; [48; 120]; [48; 88]] ->
+  (AsmLex.lex_word feat (pre ++ ds) = Some (KLit (LHex v)) <-> AsmLit.lit_value 16 ds = Some v).
+Proof. exact AsmLit.hex_word. Qed.
+Print Assumptions C04_hex_word.
+
+(** Non-vacuity: one operand in five spellings, the extremes, and strings that denote nothing. *)
+Example C04_literal_nonvacuous :
+  AsmLit.lit_value 10 AsmLit.s_m1 = Some 65535 /\ AsmLit.lit_value 16 AsmLit.s_m1 = Some 65535 /\
+  AsmLit.lit_value 16 AsmLit.s_m8001 = None /\ AsmLit.lit_value 10 AsmLit.s_65536 = None.
+Proof. exact AsmLit.lit_examples2. Qed.
 
 (** A literal is accepted for a signed n-bit field iff its 16-bit value, read as two's
     complement, lies in [-2^(n-1), 2^(n-1)); for an unsigned n-bit field iff it is below 2^n
